@@ -107,9 +107,61 @@ add(Job('is_ipv4', 'harness/is_ipv4.c', enforce='is_ipv4', loops=True, timeout=1
 add(Job('is_ipv6', 'harness/is_ipv6.c', enforce='is_ipv6', replace=['is_ipv4'], timeout=2400, reach=4,
         unwindset=[('is_ipv6_wrapped_for_contract_checking.0', 18)],
         expect=['postcondition', 'assigns', 'unwind'], functions=['is_ipv6'], files=['src/is_ipv4_ipv6.c'], assumptions=[A1, A5, A9],
-        note='no loop invariant: the loop provably runs <= 17 times for every input (unwinding assertion is an obligation); g_len <= 2^31-16'))
+        note='no loop invariant: the loop provably runs <= 17 times (unwinding assertion is an obligation); input length <= 45 bytes in this job, longer inputs: is_ipv6_len'))
+add(Job('is_ipv6_len', 'harness/is_ipv6_len.c', enforce='is_ipv6', replace=['is_ipv4'], loops=True, timeout=900, reach=2,
+        expect=['postcondition', 'loop_invariant_step', 'loop_decreases'], functions=['is_ipv6 (length lemma)'], files=['src/is_ipv4_ipv6.c'], assumptions=[A1, A5, A9],
+        note='every input length: accepted without a dotted quad => at most 39 bytes; a dotted quad is handed to is_ipv4 from offset <= 35'))
 add(Job('is_ipaddr', 'harness/is_ipaddr.c', enforce='is_ipaddr', replace=['is_ipv4', 'is_ipv6'], timeout=300, reach=2,
         expect=['postcondition', 'assigns'], functions=['is_ipaddr'], files=['src/is_ipv4_ipv6.c'], assumptions=[A3, A9]))
+
+A4 = 'A4: strchr(p,".") answers from the ghost dot-rank function of the input (pointwise facts); four derived facts about ranks are assumed at each call and proved from the step axiom in job lemma_rank'
+SP_HELPER_LOOPS = [('is_special_domain.%d' % k, 7) for k in (1, 2, 4, 5, 6, 7)]   # CHECK() macro loops (<= 5 entries) and their do-while(0)
+add(Job('is_special_domain_A', 'harness/is_special_domain.c', enforce='is_special_domain', loops=True, defines=['-DJOB_A'], timeout=1800, reach=0,
+        pre_unwind=SP_HELPER_LOOPS, expect=['loop_invariant_base', 'loop_invariant_step', 'loop_decreases', 'assertion'],
+        functions=['is_special_domain (counting and skipping loops)'], files=['src/is_special_domain.c'], assumptions=[A4, A9],
+        note='domain length 1..253 (guaranteed by is_ascii_domain at every call site), no root dot (premise of C09)'))
+add(Job('is_special_domain_B', 'harness/is_special_domain.c', enforce='is_special_domain', loops=True, defines=['-DJOB_B'], timeout=2700, reach=4,
+        pre_unwind=SP_HELPER_LOOPS, expect=['postcondition', 'loop_invariant_step', 'assertion'],
+        functions=['is_special_domain (verdict after the cut)'], files=['src/is_special_domain.c'], assumptions=[A4, A6, A9,
+            'cut facts (no-dot shortcut iff no dot; cursor at the second-to-last label) are assumed here and are the obligations of job is_special_domain_A'],
+        note='recording memcpy, oracle strncasecmp asserting operands and length of every comparison'))
+
+def _static_scan(job, r):
+    import importlib.util
+    spec = importlib.util.spec_from_file_location('static_scan', os.path.join(VERIF, 'tools', 'static_scan.py'))
+    m = importlib.util.module_from_spec(spec); spec.loader.exec_module(m)
+    inc = ['-I' + VERIF + '/stubs/include']
+    res = []
+    for be, defs in BACKENDS.items():
+        res += [dict(x, backend=be) for x in m.scan(REPO, be, defs, inc)]
+    seen = set()
+    for x in res:
+        key = (x['file'], x['symbol'])
+        if key in seen:
+            continue
+        seen.add(key)
+        r.obligations.append(dict(name='static_scan.%s.%s' % (x['file'], x['symbol']),
+                                  description='SAFETY: static-lifetime object %s in %s is const-qualified (type: %s)' % (x['symbol'], x['file'], x['type']),
+                                  status='SUCCESS' if x['const'] else 'FAILURE', file=x['file'], line='', function=''))
+    r.backend = 'goto symbol table scan (supporting static fact, not a CBMC proof obligation)'
+    r.cmds.append('tools/static_scan.py: goto-cc -c <each library TU>; goto-instrument --show-symbol-table')
+    if not r.obligations:
+        r.status = 'undecided'; r.reason = 'symbol scan found no static-lifetime symbol at all (tld_list expected)'
+    else:
+        r.status = 'failed' if r.failed else 'proved'
+
+
+add(Job('static_scan', 'tools/static_scan.py', pyfunc=_static_scan, timeout=300,
+        functions=['all static-lifetime symbols of src/*.c and partial/*/*.c'], files=['src', 'partial'],
+        note='supporting static fact: every static-lifetime object of the library is const (no shared mutable state)'))
+for be, defs in BACKENDS.items():
+    sfx = '' if be == 'idn2' else '@' + be
+    add(Job('lifecycle' + sfx, 'harness/lifecycle.c', no_dfcc=True, leak=True, defines=defs, timeout=600, reach=1, backend=be,
+            expect=['assertion', 'memory-leak'], functions=['eav_init', 'eav_setup', 'eav_is_email', 'eav_errstr', 'eav_free', 'eav_result_free'],
+            files=['partial/%s/eav.c' % be, 'src/eav.c'], assumptions=[A2, A7],
+            note='no contracts: real functions inlined on one symbolic history (4 validations, 2 init/free cycles); complete for that history shape, all settings symbolic'))
+add(Job('lemma_local', 'harness/lemma_local.c', no_dfcc=True, timeout=300, reach=1, expect=['assertion'],
+        functions=['spec automata (lemmas)'], files=[], note='loop-free over a symbolic (state, character) pair: complete'))
 
 PROPS = {}
 
